@@ -101,6 +101,7 @@ fn rac_watchdog(name: &'static str) -> std::sync::Arc<std::sync::Mutex<Option<(u
     cur
 }
 
+include!("/verif/.cache/rac-gen/lex_literals.rs");
 #[test]
 fn rac_document_tiles() {
     let wd = rac_watchdog("document_tiles");
@@ -131,6 +132,24 @@ fn rac_document_tiles() {
         texts.extend(next.iter().map(|s| s.chars().collect::<Vec<char>>()));
         fr = next;
     }
+    // every quotation mark the lexer of the tree under check knows (single-character literals harvested from lexing/*.rs for
+    // which lex_quote answers), in every order: all texts of up to 4 symbols over those marks, a letter and a blank
+    {
+        let mut qa: Vec<char> = vec![];
+        for lit in RAC_LEX_LITERALS.iter() {
+            let cs: Vec<char> = lit.chars().collect();
+            if cs.len() == 1 && crate::lexing::lex_token(&cs).map(|f| matches!(f.token, TokenKind::Punctuation(Punctuation::Quote(_)))).unwrap_or(false) && !qa.contains(&cs[0]) { qa.push(cs[0]); }
+        }
+        qa.truncate(6);
+        qa.push('a'); qa.push(' ');
+        let mut frontier: Vec<Vec<char>> = vec![vec![]];
+        for _ in 0..4 {
+            let mut next = vec![];
+            for t in &frontier { for c in qa.iter() { let mut u = t.clone(); u.push(*c); next.push(u); } }
+            texts.extend(next.iter().cloned());
+            frontier = next;
+        }
+    }
     let mut cases = 0u64;
     let mut nontrivial = 0u64;
     for t in &texts {
@@ -155,7 +174,7 @@ fn rac_document_tiles() {
         }
     }
     *wd.lock().unwrap() = None;
-    println!("RAC-OK document_tiles cases={} nontrivial={} bound=len<=4-over-15-symbols+<=4-of-24-fragments", cases, nontrivial);
+    println!("RAC-OK document_tiles cases={} nontrivial={} bound=len<=4-over-15-symbols+<=4-of-24-fragments+len<=4-over-the-lexer-quote-marks", cases, nontrivial);
 }
 
 // Runtime contract check of Document::condense_indices, whose contract the Verus unit `document`
